@@ -4,6 +4,7 @@ CONSTANTS
     Kinds = {"T", "C", "R", "N"}
     MaxLen = 3
     ReadSizes = {2, 3}
+    WindowUnits = 2
     Short = TRUE
 INVARIANT Inv_PassThrough
 INVARIANT Inv_Plain
